@@ -1,4 +1,363 @@
+//! C03 — compilation never drops an asserted relation.
+//!
+//! For every program of the E1 space the compiled op list is read as a set of relations
+//! (`vpe1::opsem`), *all* assignments over a value alphabet that satisfy every op relation
+//! are enumerated (define-or-check), and each must satisfy every relation of the source
+//! program (each arithmetic definition, connect, zero/bool check, constant), read through
+//! `expr_to_widx`. The runner is never consulted.
+
+use std::sync::Mutex;
+use std::sync::atomic::{AtomicU64, Ordering};
+
+use p3_baby_bear::BabyBear;
+use p3_circuit::expr::Expr;
+use p3_circuit::{Circuit, ExprId};
+use p3_field::{PrimeCharacteristicRing, PrimeField64};
+use vpcore::serde_json::{Value, json};
+use vpcore::{Ctx, Histo, Report, finish};
+use vpe1::explore::{SeenSet, Stats, explore};
+use vpe1::families::{families, families_scaled};
+use vpe1::opsem::OpSem;
+use vpe1::prog::{Program, materialize, remove_call};
+
+type F = BabyBear;
+
+fn consts() -> Vec<F> {
+    vec![F::ZERO, F::ONE, F::from_u64(5), F::from_u64(7)]
+}
+fn fu(x: &F) -> u64 {
+    x.as_canonical_u64()
+}
+/// Alphabet for free slots; smaller when there are many free slots.
+fn alphabet(free: usize) -> Vec<F> {
+    match free {
+        0..=3 => vec![F::ZERO, F::ONE, F::TWO, F::from_u64(3), F::from_u64(5)],
+        4 => vec![F::ZERO, F::ONE, F::TWO, F::from_u64(3)],
+        5 => vec![F::ZERO, F::ONE, F::from_u64(3)],
+        _ => vec![F::ONE, F::from_u64(3)],
+    }
+}
+
+struct Broken {
+    detail: String,
+    assignment: Vec<Option<u64>>,
+}
+
+/// First source relation that `wv` violates, if any.
+fn source_violation(
+    nodes: &[Expr<F>],
+    connects: &[(ExprId, ExprId)],
+    circuit: &Circuit<F>,
+    wv: &[Option<F>],
+) -> Option<String> {
+    let slot = |e: &ExprId| circuit.expr_to_widx.get(e).map(|w| w.0 as usize);
+    // value of expression e under the assignment: Err = slot exists in no op relation
+    let val = |e: &ExprId| -> Result<Option<F>, String> {
+        match slot(e) {
+            None => Ok(None), // expression has no slot (call anchors)
+            Some(s) => match wv.get(s).copied().flatten() {
+                Some(v) => Ok(Some(v)),
+                None => Err(format!("slot w{s} of e{} is mentioned by no emitted op", e.0)),
+            },
+        }
+    };
+    macro_rules! get {
+        ($e:expr) => {
+            match val($e) {
+                Ok(Some(v)) => v,
+                Ok(None) => continue,
+                Err(m) => return Some(m),
+            }
+        };
+    }
+    for (i, n) in nodes.iter().enumerate() {
+        let me = ExprId(i as u32);
+        match n {
+            Expr::Const(c) => {
+                let v = get!(&me);
+                if v != *c {
+                    return Some(format!("constant e{i}={} holds {}", fu(c), fu(&v)));
+                }
+            }
+            Expr::Add { lhs, rhs } => {
+                let (r, a, b) = (get!(&me), get!(lhs), get!(rhs));
+                if r != a + b {
+                    return Some(format!("e{i} = e{} + e{} : {} != {} + {}", lhs.0, rhs.0, fu(&r), fu(&a), fu(&b)));
+                }
+            }
+            Expr::Sub { lhs, rhs } => {
+                let (r, a, b) = (get!(&me), get!(lhs), get!(rhs));
+                if r != a - b {
+                    return Some(format!("e{i} = e{} - e{} : {} != {} - {}", lhs.0, rhs.0, fu(&r), fu(&a), fu(&b)));
+                }
+            }
+            Expr::Mul { lhs, rhs } => {
+                let (r, a, b) = (get!(&me), get!(lhs), get!(rhs));
+                if r != a * b {
+                    return Some(format!("e{i} = e{} * e{} : {} != {} * {}", lhs.0, rhs.0, fu(&r), fu(&a), fu(&b)));
+                }
+            }
+            Expr::Div { lhs, rhs } => {
+                let (r, a, b) = (get!(&me), get!(lhs), get!(rhs));
+                if r * b != a {
+                    return Some(format!("e{i} = e{} / e{} : {} * {} != {}", lhs.0, rhs.0, fu(&r), fu(&b), fu(&a)));
+                }
+            }
+            Expr::MulAdd { a, b, c } => {
+                let (r, x, y, z) = (get!(&me), get!(a), get!(b), get!(c));
+                if r != x * y + z {
+                    return Some(format!("e{i} = e{}*e{}+e{} : {} != {}*{}+{}", a.0, b.0, c.0, fu(&r), fu(&x), fu(&y), fu(&z)));
+                }
+            }
+            Expr::HornerAcc {
+                acc,
+                alpha,
+                p_at_z,
+                p_at_x,
+            } => {
+                let (r, a, al, z, x) = (get!(&me), get!(acc), get!(alpha), get!(p_at_z), get!(p_at_x));
+                if r != a * al + z - x {
+                    return Some(format!("e{i} = horner(e{},e{},e{},e{}) : {} != {}*{}+{}-{}", acc.0, alpha.0, p_at_z.0, p_at_x.0, fu(&r), fu(&a), fu(&al), fu(&z), fu(&x)));
+                }
+            }
+            Expr::BoolCheck { val: v } => {
+                let x = get!(v);
+                if x != F::ZERO && x != F::ONE {
+                    return Some(format!("bool check on e{} holds {}", v.0, fu(&x)));
+                }
+            }
+            Expr::Public(_) | Expr::PrivateInput(_) | Expr::NonPrimitiveCall { .. } | Expr::NonPrimitiveOutput { .. } => {}
+        }
+    }
+    for (a, b) in connects {
+        let (x, y) = (
+            match val(a) {
+                Ok(Some(v)) => v,
+                Ok(None) => continue,
+                Err(m) => return Some(m),
+            },
+            match val(b) {
+                Ok(Some(v)) => v,
+                Ok(None) => continue,
+                Err(m) => return Some(m),
+            },
+        );
+        if x != y {
+            return Some(format!("connect(e{},e{}) : {} != {}", a.0, b.0, fu(&x), fu(&y)));
+        }
+    }
+    None
+}
+
+struct Cnt {
+    programs: AtomicU64,
+    assignments: AtomicU64,
+    capped: AtomicU64,
+    unsupported: AtomicU64,
+    build_err: AtomicU64,
+}
+
+fn check_program(p: &Program, cs: &[F], cnt: Option<&Cnt>, h: Option<&Histo>) -> Option<Broken> {
+    let m = materialize::<F, F>(p, cs).ok()?;
+    let nodes = m.nodes.clone();
+    let connects = m.connects.clone();
+    let free = m.n_pub + m.n_priv
+        + nodes
+            .iter()
+            .filter(|n| matches!(n, Expr::NonPrimitiveOutput { .. }))
+            .count();
+    let circuit = match m.builder.build() {
+        Ok(c) => c,
+        Err(_) => {
+            if let Some(c) = cnt {
+                c.build_err.fetch_add(1, Ordering::Relaxed);
+            }
+            return None;
+        }
+    };
+    let sem = OpSem::new(&circuit);
+    if sem.unsupported {
+        if let Some(c) = cnt {
+            c.unsupported.fetch_add(1, Ordering::Relaxed);
+        }
+        return None;
+    }
+    let alpha = alphabet(free);
+    let mut broken: Option<Broken> = None;
+    let limit = 4000;
+    let n = sem.enumerate(&alpha, limit, &mut |wv| {
+        if broken.is_some() {
+            return;
+        }
+        if let Some(d) = source_violation(&nodes, &connects, &circuit, wv) {
+            broken = Some(Broken {
+                detail: d,
+                assignment: wv.iter().map(|x| x.as_ref().map(fu)).collect(),
+            });
+        }
+    });
+    if let Some(c) = cnt {
+        c.programs.fetch_add(1, Ordering::Relaxed);
+        c.assignments.fetch_add(n as u64, Ordering::Relaxed);
+        if n >= limit {
+            c.capped.fetch_add(1, Ordering::Relaxed);
+        }
+    }
+    if let Some(h) = h {
+        h.add(match (n, broken.is_some()) {
+            (0, _) => "no_satisfying_assignment_over_alphabet",
+            (_, true) => "relation_not_implied",
+            (_, false) => "all_assignments_satisfy_source",
+        });
+    }
+    broken
+}
+
+fn minimise(p: &Program, cs: &[F]) -> Program {
+    let mut cur = p.clone();
+    loop {
+        let mut improved = false;
+        for j in (0..cur.calls.len()).rev() {
+            if let Some(q) = remove_call(&cur, j)
+                && check_program(&q, cs, None, None).is_some()
+            {
+                cur = q;
+                improved = true;
+                break;
+            }
+        }
+        if !improved {
+            return cur;
+        }
+    }
+}
+
 fn main() {
-    eprintln!("MACHINERY-ERROR: check c03 not built yet");
-    std::process::exit(2);
+    vpcore::install_quiet_panic_hook();
+    let ctx = Ctx::from_args("C03", "model_checking");
+    let cs = consts();
+    let report = Report::new();
+
+    if let Some(path) = &ctx.replay {
+        let r = vpcore::load_replay(path);
+        let p: Program = vpcore::serde_json::from_value(r["program"].clone())
+            .unwrap_or_else(|e| vpcore::machinery_error(&format!("bad replay: {e}")));
+        println!("replaying: {}", p.show());
+        if let Ok(m) = materialize::<F, F>(&p, &cs) {
+            println!("nodes: {:?}\nconnects: {:?}", m.nodes, m.connects);
+            if let Ok(c) = m.builder.build() {
+                for op in &c.ops {
+                    println!("  op {op:?}");
+                }
+                println!("  expr_to_widx {:?} rewrite {:?}", c.expr_to_widx, c.witness_rewrite);
+            }
+        }
+        if let Some(b) = check_program(&p, &cs, None, None) {
+            println!("  ops-satisfying assignment {:?} violates: {}", b.assignment, b.detail);
+            report.violation(
+                format!("rel_dropped:{}", p.show()),
+                b.detail,
+                json!({"program": p, "assignment": b.assignment}),
+            );
+        }
+        let cov = json!({"states":1,"transitions":1,"traces_validated_against_impl":1,"samples":[p.show()],"replay":true});
+        finish(&ctx, cov, vec![], &report);
+    }
+
+    let mut fams = families_scaled(if ctx.quick() { 1 } else { 2 });
+    if let Some(f) = ctx.opt("family") {
+        fams = families(true).into_iter().chain(families(false)).filter(|x| x.name == f).collect();
+    }
+    let seen_keys = SeenSet::default();
+    let cnt = Cnt {
+        programs: AtomicU64::new(0),
+        assignments: AtomicU64::new(0),
+        capped: AtomicU64::new(0),
+        unsupported: AtomicU64::new(0),
+        build_err: AtomicU64::new(0),
+    };
+    let histo = Histo::new();
+    let samples: Mutex<Vec<Value>> = Mutex::new(vec![]);
+    let raw = AtomicU64::new(0);
+    let minimise_budget = AtomicU64::new(400);
+    let mut fam_reports = vec![];
+    let (mut th, mut tc) = (0u64, 0u64);
+    let mut all_exhaustive = true;
+
+    for (fi, fam) in fams.iter().enumerate() {
+        let stats = Stats::default();
+        let seen_prune = SeenSet::default();
+        let stop_at = (0.92 * (fi as f64 + 1.0) / fams.len() as f64 + 0.04).min(0.95);
+        let t0 = ctx.elapsed_s();
+        explore::<F, F>(
+            fam,
+            &cs,
+            &ctx,
+            stop_at,
+            &seen_keys,
+            &seen_prune,
+            &stats,
+            &|_p, _m| {},
+            &|p, _m| {
+                if let Some(b) = check_program(p, &cs, Some(&cnt), Some(&histo)) {
+                    raw.fetch_add(1, Ordering::Relaxed);
+                    let (q, minimised) = if minimise_budget
+                        .fetch_update(Ordering::Relaxed, Ordering::Relaxed, |b| b.checked_sub(1))
+                        .is_ok()
+                    {
+                        (minimise(p, &cs), true)
+                    } else {
+                        (p.clone(), false)
+                    };
+                    let b2 = check_program(&q, &cs, None, None).unwrap_or(b);
+                    report.violation(
+                        format!("rel_dropped:{}", q.show()),
+                        format!("{} — an ops-satisfying assignment violates the source relation {}", q.show(), b2.detail),
+                        json!({"program": q, "found_in": p, "assignment": b2.assignment, "detail": b2.detail, "minimised": minimised}),
+                    );
+                }
+                let mut s = samples.lock().unwrap();
+                if s.len() < 6 && p.calls.len() >= 3 {
+                    s.push(json!(p.show()));
+                }
+            },
+        );
+        let h = stats.histories.load(Ordering::Relaxed);
+        let c = stats.canonical.load(Ordering::Relaxed);
+        let to = stats.timed_out.load(Ordering::Relaxed);
+        th += h;
+        tc += c;
+        all_exhaustive &= !to;
+        fam_reports.push(json!({
+            "family": fam.name, "bounds": fam, "histories": h, "new_canonical_programs": c,
+            "pruned_subtrees": stats.pruned_subtrees.load(Ordering::Relaxed),
+            "exhaustive": !to, "wall_s": ctx.elapsed_s() - t0,
+        }));
+        eprintln!("family {} histories={} canonical={} exhaustive={} t={:.1}s", fam.name, h, c, !to, ctx.elapsed_s() - t0);
+    }
+
+    let cov = json!({
+        "states": tc,
+        "transitions": th,
+        "traces_validated_against_impl": cnt.programs.load(Ordering::Relaxed),
+        "samples": *samples.lock().unwrap(),
+        "state_definition": "a state is a builder program identified by the H1 snapshot of the real CircuitBuilder; every state is compiled by the real lowering + optimiser; the emitted op list is evaluated as relations on every assignment over the alphabet (define-or-check) and each ops-satisfying assignment is tested against every source relation",
+        "families": fam_reports,
+        "exhaustive": all_exhaustive,
+        "ops_satisfying_assignments_checked": cnt.assignments.load(Ordering::Relaxed),
+        "programs_where_assignment_cap_hit": cnt.capped.load(Ordering::Relaxed),
+        "programs_skipped_nonprimitive_ops": cnt.unsupported.load(Ordering::Relaxed),
+        "programs_rejected_by_build": cnt.build_err.load(Ordering::Relaxed),
+        "outcome_histogram": histo.to_json(),
+        "raw_violating_programs": raw.load(Ordering::Relaxed),
+    });
+    finish(
+        &ctx,
+        cov,
+        vec![
+            "opsem (vpe1::opsem) states what each Op kind asserts; a slot that occurs only as MulAdd intermediate_out is existentially quantified".into(),
+            "free slots range over a small alphabet; program structure is exhaustive within each family's bounds".into(),
+        ],
+        &report,
+    );
 }
